@@ -16,7 +16,9 @@ Bounded exhaustive exploration of boot_noise_ceiling / cv_noise_ceiling / pool_r
   through the real crossval() (both of its noise-ceiling branches: ceil_set given / None);
   sets_k_fold with 4..12 rdm groups (every remainder n_groups mod k_rdm), each fold on its own;
 * every ordered pair of methods in two consecutive calls on ONE RDMs object; every call must leave
-  its arguments bit-identical.
+  its arguments bit-identical;
+* the other measures the routines accept (spearman, kendall, tau-b, tau-a; euclid / neg_riem_dist in
+  pool_rdm): structural clauses only, pool_rdm of both modules against the reference pool.
 
 Judged against mc/ref/c07_ref.py (plain-loop pooling and leave-one-group-out).
 """
@@ -63,6 +65,9 @@ ASSUMPTIONS = [
     'optimality of the upper bound is demanded for singleton groups only (statement); for '
     'whitened measures only lower <= upper is demanded; the cross-validated upper bound is '
     'only used for the ordering under leave-one-RDM-out with singleton groups',
+    'for spearman, kendall, tau-b, tau-a (and euclid / neg_riem_dist in pool_rdm) only the structural clauses are '
+    'demanded: the pooled RDM is the mean of the tie-averaged ranks (plain mean), the lower bound is its '
+    'leave-one-group-out score, the upper bound its score on all data; no optimality, no ordering',
     'the leak check observes predictions through the public sets_leave_one_out_rdm + pool_rdm '
     'and through a recording wrapper around the name pool_rdm in inference.noise_ceiling',
 ]
@@ -90,6 +95,12 @@ BOUNDS = {
                                    'remainder, singleton groups and two doubled groups, k_pattern 1 and 2; every fold '
                                    'judged on its own against the pooled RDM of the REMAINING groups; no test group in '
                                    'the training / ceiling set; shuffled order with <= 1 non-default answer',
+        'other accepted measures': 'spearman, kendall, tau-b, tau-a (reference pool = mean of tie-averaged ranks; structure '
+                                   'only: lower = leave-one-group-out, upper = score of the pooled RDM, NaN masks, leak, '
+                                   'arguments unchanged): all 729 pairs over {0,1,2}^3, 2 fills x n_rdm 2-4 x n_cond 3-4 x '
+                                   'every partition x 3 masks, cv generators loo_rdm / k_fold_rdm / k_fold / k_fold_pattern / '
+                                   'loo_pattern; pool_rdm of util.inference_util and util.pooling for every measure they '
+                                   'accept (euclid / neg_riem_dist: plain mean; unknown measure refused)',
         'call sequences': 'every ordered pair of the 5 methods on ONE RDMs object through boot_noise_ceiling, '
                           'cv_noise_ceiling, eval_fixed, crossval (n_rdm 2-4, n_cond 3-4, 2 fills); every '
                           'noise-ceiling / pool_rdm / crossval call of the whole check leaves its arguments bit-identical'},
@@ -102,6 +113,7 @@ BOUNDS = {
         'cv': 'as quick with <= 2 non-default answers, 6 fills, n_cond 6 and 7 for every pattern generator; '
               'pattern-only sets through crossval(): k in {1,2,3,4}, n_cond 6,7,9,10,11,12,13',
         'k_fold with many groups': 'as quick, shuffled order for every (k_rdm, n_groups), 6 fills',
+        'other accepted measures': 'as quick with 3 fills',
         'call sequences': 'as quick with 4 fills'},
 }
 
